@@ -464,6 +464,19 @@ Proof.
     + lia.
 Qed.
 
+(** hiding loses nothing: under one secret and random vector two different well-formed AVPs never
+    hide to the same value, whatever length padding and alignment padding each was given *)
+Corollary hide_injective a b secret rv lp ap lp' ap' :
+  wf_avp a = true -> is_hidden a = false -> len ap = 16 ->
+  wf_avp b = true -> is_hidden b = false -> len ap' = 16 ->
+  m_hide H a secret rv lp ap = m_hide H b secret rv lp' ap' -> a = b.
+Proof.
+  intros Wa Ha La Wb Hb Lb E.
+  destruct (hide_then_reveal a secret rv lp ap Wa Ha La) as [h [E1 R1]].
+  destruct (hide_then_reveal b secret rv lp' ap' Wb Hb Lb) as [h' [E2 R2]].
+  rewrite E1, E2 in E. injection E as ->. rewrite R1 in R2. now injection R2.
+Qed.
+
 (** unused alignment padding is inert *)
 Theorem padding_inert t payload secret rv lp ap ap' :
   let k := (16 - (2 + len payload + len lp) mod 16) mod 16 in
